@@ -133,3 +133,52 @@ Definition corr_case (c : case02) : bool :=
 
 (** verdict of one real run: correspondence with the model, and the specification *)
 Definition check_case_h (c : case02) : N := verdict (corr_case c) (spec c) 0.
+
+(** * trace correspondence: the operations a completed call performs on wal.log, in order
+    (1 = append, 2 = fsync, 3 = truncate to zero, 4 = cut back to the valid prefix) *)
+Definition mop_code (o : mop) : list N :=
+  match o with
+  | MW (WAppend _) => [1]
+  | MW WFsync => [2]
+  | MW WSetLen0 => [3]
+  | _ => []
+  end.
+
+Definition call_trace (ops : list mop) : list N := flat_map mop_code ops.
+
+Fixpoint nlist_eqb (a b : list N) : bool :=
+  match a, b with
+  | [], [] => true
+  | x :: a', y :: b' => (x =? y) && nlist_eqb a' b'
+  | _, _ => false
+  end.
+
+Definition trace_matches (a : api) (ops : list mop) (t : list N) : bool :=
+  match a with
+  | NewWriter _ =>
+      (* the log is cut back (and synced) only when a crash left a torn tail *)
+      nlist_eqb t [] || nlist_eqb t [4; 2]
+  | _ => nlist_eqb t (call_trace ops)
+  end.
+
+(** returns the index of the first event whose log trace is not the model's, if any *)
+Fixpoint traces_run (m : mst) (i : N) (evs : list ev) (trs : list (list N)) : option N :=
+  match evs, trs with
+  | [], _ => None
+  | ECall a :: evs', t :: trs' =>
+      match call_ops m a with
+      | Some (ops, h) =>
+          if trace_matches a ops t then traces_run (set_handle (mexec m ops) h) (N.succ i) evs' trs'
+          else Some i
+      | None => Some i
+      end
+  | ECrash _ _ _ (Some c) (Some q) :: evs', _ :: trs' => traces_run (after_crash c q) (N.succ i) evs' trs'
+  | _, _ => Some i
+  end.
+
+Definition case02t := (case02 * list (list N))%type.
+
+Definition corr_case_t (c : case02t) : bool :=
+  corr_case (fst c) && match traces_run m0 0 (fst (fst c)) (snd c) with None => true | Some _ => false end.
+
+Definition check_case_t (c : case02t) : N := verdict (corr_case_t c) (spec (fst c)) 0.
